@@ -9,6 +9,10 @@ if len(sys.argv) > 4 and sys.argv[4] == "environment":
     steer = """
 For this round: at least one of your changes must depend on PROCESS-LEVEL or ENVIRONMENT state rather than on the arguments of a single call - module-level or class-level state shared by all instances, import order, numpy / astropy / dask global settings (floating-point error state, unit equivalencies, time or IERS settings, the scheduler or number of workers in use), environment variables, the current working directory, or files written earlier in the same process. And at least one must be triggered by a DEGENERATE SIZE OR VALUE that ordinary runs do not contain: an empty batch, a batch of exactly one event, a batch that crosses an internal buffer or partition size, repeated identical events, a value exactly on a table node / threshold / layer boundary, a signed zero, a subnormal, or the largest / smallest value the configuration allows.
 """
+elif len(sys.argv) > 4 and sys.argv[4] == "conventions":
+    steer = """
+For this round: at least one of your changes must be a slip in a CONVENTION or a SILENT FALLBACK rather than in the logic a reader would check first - degrees versus radians, km versus m, log10 versus natural log, GeV versus 100 PeV, a sign or orientation (longitude wrap, azimuth origin, which of two angles is the complement), an inclusive versus exclusive bound, an off-by-one in a table or grid index, a default argument or an `except` / `if missing` path that quietly substitutes a value. It must still be SPECIFIC: visible only for some inputs, configurations or histories (a convention slip that is wrong everywhere is not acceptable). And at least one of your changes must be made in a file that is NOT among the files the property is anchored in (a utility, the constants, a decorator, a data-loading or plotting helper, the configuration layer, the command line, compute.py) yet breaks the property through the way the anchored code uses it.
+"""
 elif len(sys.argv) > 4 and sys.argv[4] == "interaction":
     steer = """
 For this round: at least one of your changes must live in an INTERACTION rather than in a single formula - between two calls on one object, between two objects or two stages of the pipeline, between the library and its environment (files, the process, configuration objects that outlive a call, the dtype / memory layout / length of the arrays passed in), or between two edits that are each harmless alone. And at least one must sit at a code site that is NOT the most obvious function for this property: a helper, decorator or utility it depends on, the wiring in compute.py or the command line, a constructor, or a data-handling routine.
